@@ -1,7 +1,7 @@
 """C06 — entry points exist exactly for defined, non-overridden kinds and forward calls."""
 import json
 
-from .. import render, rustc_engine
+from .. import render, rustc_engine, spec
 from ..spec import ALL_EP_KINDS, EP_OF, KINDS_ENUM, handlers, part_by_id
 from .common import (Canon, api_probe_of, canon_args, doc_text, draw_args, draw_env, draw_info, draw_world, dumps)
 from .c02 import compare_call, draw_plan, expected_event
@@ -128,6 +128,65 @@ def existence(ctx, fam):
                 "configs": [p.get("ep_config") for p in fam.progs][:6]})
 
 
+def structure(ctx):
+    """In-process: the set of emitted entry-point functions for every override subset, and the text of the
+    functions that are not overridden compared with the expansion without any override."""
+    import itertools
+    from .. import inproc_engine
+    kinds = ALL_EP_KINDS
+    subsets = [c for n in range(len(kinds) + 1) for c in itertools.combinations(kinds, n)]
+    jobs, meta = [], {}
+    nbase = ctx.pick(4, 24)
+    for b in range(nbase):
+        rng = ctx.rng("c06s", b)
+        migrate = bool(b % 2)
+        reply = [None, "legacy", "table"][b % 3]
+        generic = (b % 4 == 3)
+        base = spec.gen_ep_config_program(rng, f"s{b:02d}", (), migrate, reply, True)
+        if generic:
+            base["generics"] = [{"name": "T1", "concrete": "u32"}, {"name": "ParamT", "concrete": "String"}]
+        chosen = subsets if (not ctx.quick or b < 2) else [s_ for i, s_ in enumerate(subsets) if i == 0 or i % 4 == b % 4]
+        for i, ov in enumerate(chosen):
+            import copy
+            q = copy.copy(base)
+            q["overrides"] = [{"kind": k, "fn": f"ov_{k}", "msg": "svmon::OvMsg"} for k in ov]
+            R = render.R(q)
+            item = R.contract_item(True)
+            attr = None
+            if generic:
+                attr = "generics<u32, String>"
+            jid = f"s{b:02d}_{i:02d}"
+            jobs.append((jid, "entry_points", attr, item, True))
+            meta[jid] = (b, ov, migrate, reply, generic)
+    res = inproc_engine.run_jobs(ctx, "c06", jobs)
+    base_fns = {}
+    for jid, (b, ov, migrate, reply, generic) in meta.items():
+        if ov == ():
+            r = res[jid]
+            base_fns[b] = {it["sig"]["name"]: it["text"] for it in r.get("view", []) if it["k"] == "fn" and it["path"] == "::entry_points"}
+    for jid, (b, ov, migrate, reply, generic) in meta.items():
+        r = res[jid]
+        ctx.ev()
+        cfg = {"overrides": list(ov), "migrate": migrate, "reply": reply, "generic": generic}
+        if r["status"] != "clean":
+            ctx.violate("config-rejected", f"entry_points expansion of configuration {cfg} is {r['status']} {r.get('panic','')[:80]}", {"config": cfg, "result": {k: v for k, v in r.items() if k != 'view'}})
+            continue
+        fns = {it["sig"]["name"]: it["text"] for it in r["view"] if it["k"] == "fn" and it["path"] == "::entry_points"}
+        want = {"instantiate", "execute", "query", "sudo"} | ({"migrate"} if migrate else set()) | ({"reply"} if reply else set())
+        want -= {EP_OF[k] for k in ov}
+        d = {"config": cfg, "emitted": sorted(fns), "expected": sorted(want)}
+        if set(fns) != want:
+            ctx.violate("entry-point-set:" + ("missing" if want - set(fns) else "extra"), f"configuration {cfg}: emitted entry points {sorted(fns)} expected {sorted(want)}", d)
+            continue
+        changed = [n for n in fns if base_fns[b].get(n) != fns[n]]
+        if changed:
+            ctx.violate("override-alters-other", f"configuration {cfg}: overriding changed the text of non-overridden entry points {changed}", dict(d, changed=changed))
+            continue
+        ctx.nontrivial(["structure", b, list(ov)])
+        ctx.count("structure_configs")
+    ctx.cov["structure_override_subsets"] = len({m[1] for m in meta.values()})
+
+
 def run(ctx):
     ctx.rule = ("entry-point configurations (override subsets x migrate handler x reply handler none/legacy/table; quick: empty, each single kind, all six, 8 random subsets; "
                 "thorough: all 64 subsets): (1) rustc verdict on probes naming each expected / each absent entry point; (2) every emitted entry point is called with drawn "
@@ -144,6 +203,7 @@ def run(ctx):
     fam.each_bin(per_bin)
     gen.each_bin(lambda b, progs, r: [behaviour(ctx, r, p, 2) for p in progs[:ctx.pick(1, 6)]])
     existence(ctx, fam)
+    structure(ctx)
     ctx.cov["configurations"] = len(fam.progs)
     ctx.cov["override_subsets_seen"] = sorted({",".join(p["ep_config"]["overrides"]) for p in fam.progs})
     ctx.exhaustive = (not ctx.quick)
